@@ -396,6 +396,11 @@ def sweep_table(repo, budget, seed, binary=None):
                 names, rows = pr
                 if sorted(names) != sorted(free) or len(set(names)) != len(names):
                     return {"mode": "clitable", "case": case, "expected": f"columns = the free variables {free}", "actual": f"{names}"}, checked, ""
+                in_order = [v for v in vars_ if v in free]
+                if names != in_order:
+                    return {"mode": "clitable", "case": case, "expected": f"columns in variable order {in_order}", "actual": f"{names}"}, checked, ""
+                if filt is None:
+                    base_table = [l for l in r[1].split("\n") if l.startswith("|")]
                 covered = {}
                 for cells in rows:
                     want_res = cells[-1]
@@ -434,6 +439,36 @@ def sweep_table(repo, budget, seed, binary=None):
                 return {"mode": "clitable", "case": case, "expected": f"only free variables {free} in the answer", "actual": bad}, checked, ""
             if got != sat:
                 return {"mode": "clitable", "case": case, "expected": f"-v lists exactly the {len(sat)} satisfying assignments", "actual": r[1][:400]}, checked, ""
+            v_lines = [l for l in r[1].split("\n") if l.strip().endswith(";")]
+            # same output through every input channel, for every repetition count, for every spelling of a filter
+            fp = os.path.join(tmp, "formula.txt")
+            with open(fp, "w") as fh:
+                fh.write(f)
+            variants = [(["-t", fp], None, "|", base_table, "file"), (["-t"], f.encode(), "|", base_table, "stdin"),
+                        (["-t", "-b", "2", "--evaluate=" + f], None, "|", base_table, "-b 2"), (["-t", "-b", "5", fp], None, "|", base_table, "-b 5 file"),
+                        (["-v", fp], None, ";", v_lines, "-v file"), (["-v", "-b", "3"], f.encode(), ";", v_lines, "-v -b 3 stdin")]
+            for args, stdin, mark, want, label in variants:
+                checked += 1
+                try:
+                    pp = subprocess.run([binary] + args, input=stdin, capture_output=True, timeout=30)
+                except subprocess.TimeoutExpired:
+                    continue
+                out = pp.stdout.decode("utf-8", "replace")
+                got_lines = [l for l in out.split("\n") if (l.startswith("|") if mark == "|" else l.strip().endswith(";"))]
+                if pp.returncode != 0 or got_lines != want:
+                    case = json.dumps({"formula": f, "ordering": None, "options": args[:1] + [label], "channel": "table"})
+                    return {"mode": "clitable", "case": case, "expected": "the same table / listing as with --evaluate and one run:\n" + "\n".join(want)[:300],
+                            "actual": f"exit {pp.returncode}\n" + "\n".join(got_lines)[:300]}, checked, ""
+            for spell, canon in (("True", "true"), ("T", "true"), ("t", "true"), ("1", "true"), ("False", "false"), ("F", "false"), ("f", "false"),
+                                 ("0", "false"), ("Any", "any"), ("A", "any"), ("a", "any"), ("*", "any")):
+                checked += 1
+                r1 = _run(binary, ["-t", "-f", spell, "--evaluate=" + f], tmp)
+                r2 = _run(binary, ["-t", "-f", canon, "--evaluate=" + f], tmp)
+                if r1 is None or r2 is None:
+                    continue
+                if r1[0] != r2[0] or [l for l in r1[1].split("\n") if l.startswith("|")] != [l for l in r2[1].split("\n") if l.startswith("|")]:
+                    case = json.dumps({"formula": f, "ordering": None, "options": ["-t", "-f", spell], "channel": "table"})
+                    return {"mode": "clitable", "case": case, "expected": f"filter spelling `{spell}` behaves as `{canon}`", "actual": (r1[1] + r1[2])[:300]}, checked, ""
     return None, checked, ""
 
 
